@@ -15,7 +15,7 @@ from __future__ import annotations
 
 import ast
 
-from ..core import AnalysisError, const_value, norm, walk_own, walk_stmts, names_in
+from ..core import AnalysisError, const_value, norm, walk_own, walk_stmts, names_in, same_func
 from ..paths import enum_paths, canon_test
 from . import gfa_common as gc
 from .common import key_of
@@ -43,6 +43,7 @@ def check(ctx):
     r15_6(ctx, g)
     r15_7(ctx, g)
     r15_8(ctx, g)
+    r15_9(ctx, g)
     ctx.not_decided += [
         "that all_components / find_component partition the nodes into the true connected components",
         "that biccs returns exactly the biconnected components and articulation points (algorithmic exactness; only the edge-stack discipline is decided)",
@@ -547,3 +548,71 @@ def _stmt_with(f, node):
         if any(x is node for x in ast.walk(st)) and not isinstance(st, (ast.For, ast.While, ast.If, ast.Try, ast.With)):
             best = st
     return best
+
+
+def r15_9(ctx, g):
+    """Traversal marks (`Node.visited`) are scratch state shared by all traversals of one graph object.  (a) A reset passes
+    False: `set_visited(<anything else>)` marks every node as seen.  (b) A method that reads the marks starts from clean
+    marks: it resets them itself before the first read (unconditionally, or under its own flag parameter that defaults to
+    true), or it is a helper reached only from methods that have done so."""
+    repo = ctx.repo
+    mod = g.mod
+    methods = [f for f in mod.funcs.values() if f.cls == g.add_node.cls]
+    # the resetter: a loop over all nodes that assigns the mark of each (its parameter may have been specialised to the
+    # constant every caller passes)
+    resetters = [f for f in methods if any(isinstance(lp, ast.For) and "nodes" in norm(lp.iter) and len(lp.body) == 1 and isinstance(lp.body[0], ast.Assign) and isinstance(lp.body[0].targets[0], ast.Attribute) and lp.body[0].targets[0].attr == "visited" and norm(lp.body[0].targets[0].value) == norm(lp.target) for lp in f.node.body)]
+    if len(resetters) != 1:
+        raise AnalysisError("R15.9", mod.relpath, f"cannot identify the method that resets the traversal marks ({[f.qualname for f in resetters]})")
+    rs = resetters[0]
+    ctx.analysed_func(rs)
+
+    def reset_calls(f):
+        return [c for c in walk_own(f.node) if isinstance(c, ast.Call) and same_func(repo.resolve_call(f, c), rs)]
+
+    n_calls = 0
+    for f in methods:
+        for c in reset_calls(f):
+            n_calls += 1
+            val = c.args[0] if c.args else next((k.value for k in c.keywords), None)
+            if val is None:
+                dflt = g.raw_set_visited_defaults if hasattr(g, "raw_set_visited_defaults") else rs.node.args.defaults
+                ok = bool(dflt) and const_value(dflt[-1], "?") is False
+            else:
+                ok = const_value(val, "?") is False
+            ctx.check(ok, "R15.9", f.where(c), "a reset of the traversal marks clears them (False)", key_of(f, f"reset-value:{norm(c)}"), call=norm(c))
+    ctx.require_count("R15.9", n_calls, 2, mod.relpath, "resets of the traversal marks")
+
+    def reads(f):
+        return [n for n in walk_own(f.node) if isinstance(n, ast.Attribute) and n.attr == "visited" and isinstance(n.ctx, ast.Load)]
+
+    def resets_first(f):
+        """does f clear the marks before its first read?  -> True / 'flag' (under a parameter defaulting to True) / False"""
+        rd = reads(f)
+        first = min((n.lineno, n.col_offset) for n in rd)
+        for st in f.node.body:
+            if (st.lineno, st.col_offset) > first:
+                break
+            if isinstance(st, ast.Expr) and isinstance(st.value, ast.Call) and same_func(repo.resolve_call(f, st.value), rs):
+                return True
+            if isinstance(st, ast.If) and isinstance(st.test, ast.Name) and st.test.id in f.params and any(isinstance(x, ast.Expr) and isinstance(x.value, ast.Call) and same_func(repo.resolve_call(f, x.value), rs) for x in st.body):
+                a = f.node.args
+                pos = a.posonlyargs + a.args
+                d = dict(zip([p.arg for p in pos[len(pos) - len(a.defaults):]], a.defaults))
+                if const_value(d.get(st.test.id), "?") is True:
+                    return "flag"
+        return False
+
+    readers = [f for f in methods if reads(f) and not same_func(f, rs)]
+    ctx.require_count("R15.9", len(readers), 2, mod.relpath, "methods that read the traversal marks")
+    status = {f.qualname: resets_first(f) for f in readers}
+    for f in readers:
+        ctx.analysed_func(f)
+        if status[f.qualname]:
+            ctx.holds("R15.9", f.where(), f"{f.qualname} clears the traversal marks before it reads them" + (" (under its reset flag, on by default)" if status[f.qualname] == "flag" else ""))
+            continue
+        callers = [cf for cf, _ in repo.callers_of(f)]
+        if callers and all(cf.qualname in status and status[cf.qualname] for cf in callers):
+            ctx.holds("R15.9", f.where(), f"{f.qualname} reads the marks only on behalf of {sorted({cf.qualname for cf in callers})}, which cleared them first")
+            continue
+        leavers = sorted(h.qualname for h in methods if not same_func(h, f) and any(isinstance(st, ast.Assign) and isinstance(st.targets[0], ast.Attribute) and st.targets[0].attr == "visited" and const_value(st.value, "?") is True for st in walk_own(h.node)) and not any(same_func(h, cf) for cf in callers))
+        ctx.violated("R15.9", f.where(), f"{f.qualname} reads the traversal marks without clearing them first: marks left by an earlier traversal of the same graph object ({', '.join(leavers) or 'another traversal'}) hide those nodes, e.g. the components of the graph come out empty or incomplete", key_of(f, "reads-stale-marks"))
